@@ -69,3 +69,16 @@ Definition tag (c : case) : N :=
   (if existsb (fun p => has AnnUnmuting (fst p)) o then 2 else 0) +
   (if existsb (fun p => has AnnAlready (snd p)) o then 4 else 0).
 Definition judge_all_tags (cs : list case) : list N := map tag cs.
+
+(** Ctrl+O as a real key press while shell output is being written (harness
+    TestVerifCtrlOKey): whatever the interleaving of the key handler and the
+    write, the model's answer to "Ctrl+O, later a status line" is: the mute is
+    announced and the status line is written. *)
+Record kcase := mkk { k_announced : bool; k_status_written : bool }.
+Definition judge_key1 (k : kcase) : verdict :=
+  let o := snd (mrun [(0%Z, CtrlO); (300%Z, Status)]) in
+  let want_ann := existsb (fun p => has AnnMuting (snd p)) o in
+  let want_status := existsb (fun p => has Wrote (snd p)) o in
+  first_fail [ ((negb want_ann || k_announced k) && (negb want_status || k_status_written k), v_violation 2) ].
+Definition judge_key (ks : list kcase) : list (N * N * N) := judge_list judge_key1 ks.
+Definition judge_key_tags (ks : list kcase) : list N := map (fun _ => 1) ks.
